@@ -165,7 +165,7 @@ pub fn dec_stream_case(bytes: &[u8], expect: Option<&[i32]>, extra: &[(&str, Str
     let mut f: Vec<(&str, String)> = vec![
         ("t", esc("case")), ("kind", esc("dec_stream")), ("profile", esc(profile())), ("bytes", esc(&hex(bytes))),
         ("end", esc(&d.end.tag())), ("samples", ints(&d.samples)), ("frame_lens", ints(&d.frame_lens)),
-        ("ch", d.channels.to_string()), ("bps", d.bps.to_string()), ("rate", d.rate.to_string()),
+        ("ch", d.channels.to_string()), ("bps", d.bps.to_string()), ("rate", d.rate.to_string()), ("opened", d.opened.to_string()),
     ];
     if let Some(e) = expect { f.push(("expect", ints(e))); }
     f.extend(extra.iter().cloned());
